@@ -3,16 +3,20 @@ package main
 import (
 	"fmt"
 	"net/http"
+	"net/http/httptest"
+	"strings"
 	"sync"
 	"sync/atomic"
 	"time"
 
 	"github.com/vicanso/elton"
+	"github.com/vicanso/elton/middleware"
 	"github.com/vicanso/pike/cache"
 	"github.com/vicanso/pike/compress"
 	"github.com/vicanso/pike/config"
 	"github.com/vicanso/pike/location"
 	"github.com/vicanso/pike/server"
+	"github.com/vicanso/pike/upstream"
 )
 
 // suite race: free-running mixed traffic (hot and cold keys, short lifetimes, different
@@ -79,7 +83,7 @@ func suiteRace(r *rng, n int) {
 			case 3:
 				compress.Reset([]config.CompressConfig{{Name: "zip", Levels: map[string]uint{"gzip": uint(1 + i%9), "br": uint(1 + i%11)}}})
 			case 4:
-				cache.ResetDispatchers([]config.CacheConfig{p.cacheCfg})
+				cache.ResetDispatchers(withSibling(p.cacheCfg))
 			}
 			time.Sleep(200 * time.Microsecond)
 		}
@@ -157,4 +161,129 @@ func suiteRace(r *rng, n int) {
 	<-waitWorkers
 	emit("race", "summary", itoa(total), itoa(bad), itoa(atomic.LoadInt64(&seq)))
 	stat("requests")
+	raceUpstreamPhase(r, n)
+}
+
+// second phase: the request path with the REAL transport to a loopback origin while the reloader re-applies the
+// (unchanged) upstream list and updates the running server's option (location list in another order) — what
+// main.update does on every change of any section.  Unchanged upstreams and servers keep serving: every answer is a
+// 200 for the request's own key, routed by the location with the matching prefix.
+func raceUpstreamPhase(r *rng, n int) {
+	origin := httptest.NewServer(http.HandlerFunc(func(w http.ResponseWriter, req *http.Request) {
+		w.Header().Set("Cache-Control", "no-store")
+		w.Header().Set("Content-Type", "text/plain")
+		fmt.Fprintf(w, "key=%s %s %s;%s", req.Method, req.Host, req.RequestURI, strings.Repeat(".", 64))
+	}))
+	defer origin.Close()
+	// the upstream has an Accept-Encoding of its own: the client's header is set aside for the upstream call and put
+	// back afterwards — per request
+	ups := []config.UpstreamConfig{{Name: "u1", AcceptEncoding: "gzip", Servers: []config.UpstreamServerConfig{{Addr: origin.URL}}}}
+	locs := []config.LocationConfig{
+		{Name: "l0", Upstream: "u1", RespHeaders: []string{"X-Loc:l0"}},
+		{Name: "l1", Upstream: "u1", Prefixes: []string{"/k"}, RespHeaders: []string{"X-Loc:l1"}},
+		{Name: "l2", Upstream: "u1", Prefixes: []string{"/never"}, RespHeaders: []string{"X-Loc:l2"}},
+	}
+	cache.ResetDispatchers(nil)
+	cache.ResetDispatchers(withSibling(config.CacheConfig{Name: "c1", Size: 64, HitForPass: "1s"}))
+	upstream.Reset(ups)
+	waitUpstreamHealthy("u1")
+	location.Reset(locs)
+	lists := [][]string{{"l0", "l1", "l2"}, {"l2", "l1", "l0"}, {"l1", "l2"}, {"l1", "l0", "l2"}}
+	s := server.NewServer(server.ServerOption{Addr: ":0", Locations: lists[0], Cache: "c1", CompressMinLength: 16})
+	e := elton.New()
+	e.Use(middleware.NewDefaultError())
+	e.Use(server.NewResponder())
+	e.Use(server.NewCache(s))
+	e.Use(server.NewProxy(s))
+	e.ALL("/*", func(c *elton.Context) error { return nil })
+	p := &pipeline{e: e}
+	// the environment's part: a health check of the new upstream object that fails on a busy machine is not what is
+	// examined; requests that overlap such an episode are not judged
+	var unhealthy int64
+	healthy := func() bool {
+		us := upstream.Get("u1")
+		if us == nil {
+			return true // the registry's problem, not the health checker's: judged
+		}
+		for _, hu := range us.HTTPUpstream.GetUpstreamList() {
+			if hu.Status() != 2 {
+				return false
+			}
+		}
+		return true
+	}
+	stop := make(chan struct{})
+	var wg, rwg sync.WaitGroup
+	rwg.Add(1)
+	go func() {
+		defer rwg.Done()
+		for i := 0; ; i++ {
+			select {
+			case <-stop:
+				return
+			default:
+			}
+			upstream.Reset(ups)
+			if !healthy() {
+				atomic.AddInt64(&unhealthy, 1)
+				waitUpstreamHealthy("u1")
+				atomic.AddInt64(&unhealthy, 1)
+			}
+			s.Update(server.ServerOption{Addr: ":0", Locations: lists[i%len(lists)], Cache: "c1", CompressMinLength: 16})
+			time.Sleep(time.Millisecond)
+		}
+	}()
+	var bad, total, excused int64
+	var mu sync.Mutex
+	for w := 0; w < 8; w++ {
+		wr := r.fork(uint64(1000 + w))
+		wg.Add(1)
+		go func(w int) {
+			defer wg.Done()
+			for i := 0; i < n; i++ {
+				uri := fmt.Sprintf("/k/%d", wr.intn(50))
+				u0 := atomic.LoadInt64(&unhealthy)
+				res := "ok"
+				func() {
+					defer func() {
+						if rec := recover(); rec != nil {
+							res = fmt.Sprint("panic:", rec)
+						}
+					}()
+					ae := wr.pick([]string{"", "gzip", "br", "gzip, br"})
+					h := http.Header{}
+					if ae != "" {
+						h["Accept-Encoding"] = []string{ae}
+					}
+					wre := p.do("GET", "r.test", uri, h, nil)
+					want := "key=GET r.test " + uri + ";"
+					ce := wre.Header().Get("Content-Encoding")
+					dec, ok := decodeBy(ce, wre.Body.Bytes())
+					if wre.Code != 200 || !ok || !strings.HasPrefix(string(dec), want) {
+						res = fmt.Sprintf("bad:upstream-phase code=%d ce=%s body=%.80q", wre.Code, ce, string(dec))
+					} else if ce != "" && !strings.Contains(ae, ce) {
+						res = fmt.Sprintf("bad:upstream-phase encoding %q for a client accepting %q", ce, ae)
+					} else if loc := wre.Header().Get("X-Loc"); loc != "l1" {
+						res = fmt.Sprintf("bad:upstream-phase routed-by=%q", loc)
+					}
+				}()
+				atomic.AddInt64(&total, 1)
+				if res != "ok" {
+					if u1 := atomic.LoadInt64(&unhealthy); u1 != u0 || u1%2 == 1 {
+						atomic.AddInt64(&excused, 1)
+						continue
+					}
+					atomic.AddInt64(&bad, 1)
+					mu.Lock()
+					emit("race", "bad", itoa(int64(w)), itoa(int64(i)), hx("GET "+uri), "=>", hx(res))
+					mu.Unlock()
+				}
+			}
+		}(w)
+	}
+	wg.Wait()
+	close(stop)
+	rwg.Wait()
+	emit("race", "summary", itoa(total), itoa(bad), itoa(excused))
+	stat("upstream-phase-requests")
 }
